@@ -285,31 +285,96 @@ def _match(pr, assignment):
     return True
 
 
+def _reach_conditions(fi, match):
+    """For every call `c` of function `fi` with match(c): the condition under which it is reached
+    inside its innermost enclosing loop, as an ast expression (a disjunction over the ways control
+    can get there: if/elif arms, and the arms that did NOT leave through continue/break/return/raise).
+    Returns [(call, condition ast or None when unconditional, [tests on the way])]."""
+    found = {}
+
+    def conj(conds):
+        # tests that do not ask the symbol table (isinstance of the namespace, ...) are left out:
+        # they may hold or not for any symbol
+        parts = [t if pol else ast.UnaryOp(op=ast.Not(), operand=t) for t, pol in conds if _is_symbol_test(t)]
+        if not parts:
+            return None
+        return parts[0] if len(parts) == 1 else ast.BoolOp(op=ast.And(), values=parts)
+
+    def walk(stmts, alts):
+        """alts: the alternative condition lists under which the first statement is reached; returns
+        the alternatives under which control falls off the end of the list."""
+        for st in stmts:
+            if not alts:
+                return []
+            if isinstance(st, (ast.Continue, ast.Break, ast.Return, ast.Raise)):
+                return []
+            if isinstance(st, ast.If):
+                for c in ast.walk(st.test):
+                    if match(c):
+                        found.setdefault(id(c), (c, []))[1].extend(alts)
+                t_alts = walk(st.body, [a + [(st.test, True)] for a in alts])
+                f_alts = walk(st.orelse, [a + [(st.test, False)] for a in alts])
+                if t_alts == [a + [(st.test, True)] for a in alts] and f_alts == [a + [(st.test, False)] for a in alts]:
+                    pass  # both arms fall through unchanged: the test adds nothing afterwards
+                else:
+                    alts = t_alts + f_alts
+                continue
+            if isinstance(st, (ast.For, ast.While, ast.AsyncFor)):
+                walk(st.body, [[]])
+                walk(st.orelse, [[]])
+                continue
+            if isinstance(st, (ast.With, ast.Try, ast.AsyncWith)):
+                for blk in ("body", "orelse", "finalbody"):
+                    walk(getattr(st, blk, []) or [], alts)
+                for h in getattr(st, "handlers", []):
+                    walk(h.body, alts)
+                continue
+            if isinstance(st, (ast.FunctionDef, ast.AsyncFunctionDef, ast.ClassDef)):
+                continue
+            for c in ast.walk(st):
+                if match(c):
+                    found.setdefault(id(c), (c, []))[1].extend(alts)
+        return alts
+
+    walk(fi.node.body, [[]])
+    out = []
+    for c, alts in found.values():
+        disj = [conj(a) for a in alts]
+        tests = []
+        for a in alts:
+            for t, _pol in a:
+                if not any(t is x for x in tests):
+                    tests.append(t)
+        if any(d is None for d in disj) or not disj:
+            cond = None
+        else:
+            cond = disj[0] if len(disj) == 1 else ast.BoolOp(op=ast.Or(), values=disj)
+        out.append((c, cond, tests))
+    return out
+
+
+def _is_add_to(c, attrs):
+    return (
+        isinstance(c, ast.Call) and isinstance(c.func, ast.Attribute) and c.func.attr == "add"
+        and isinstance(c.func.value, ast.Attribute) and c.func.value.attr in attrs and len(c.args) == 1
+    )
+
+
 def _population_predicates(prog):
-    """Sites `X.inner_nonlocal_names.add(n)`: the condition (ast) guarding them, per class."""
+    """Sites `X.inner_nonlocal_names.add(n)`: (class, function, pseudo If node carrying the condition
+    under which the site is reached - every way of getting there, not only an enclosing `if`)."""
     out = []
     mi = prog.modules.get("oneliner.namespaces")
     if mi is None:
         raise AnalysisError("anchor module oneliner.namespaces vanished")
     for ci in mi.classes.values():
         for fi in ci.methods.values():
-            for n in ast.walk(fi.node):
-                if isinstance(n, ast.If):
-                    for sub in ast.walk(ast.Module(body=n.body, type_ignores=[])):
-                        if (
-                            isinstance(sub, ast.Call) and isinstance(sub.func, ast.Attribute)
-                            and sub.func.attr == "add" and isinstance(sub.func.value, ast.Attribute)
-                            and sub.func.value.attr == "inner_nonlocal_names"
-                        ):
-                            out.append((ci, fi, n))
-                            break
-    # keep the innermost If for each site
-    uniq = {}
-    for ci, fi, n in out:
-        inner = [m for (c2, f2, m) in out if f2 is fi and m is not n and any(x is m for x in ast.walk(n))]
-        if not inner:
-            uniq[(fi.fq, n.lineno)] = (ci, fi, n)
-    return list(uniq.values())
+            for call, cond, tests in _reach_conditions(fi, lambda c: _is_add_to(c, ("inner_nonlocal_names",))):
+                test = cond if cond is not None else ast.Constant(value=True)
+                node = ast.If(test=test, body=[], orelse=[])
+                node.lineno = call.lineno
+                out.append((ci, fi, node))
+    return out
 
 
 def eval_symbol_pred(test, model):
@@ -324,6 +389,8 @@ def eval_symbol_pred(test, model):
         return None if v is None else not v
     if isinstance(test, ast.Call) and isinstance(test.func, ast.Attribute) and test.func.attr in model and not test.args:
         return model[test.func.attr]
+    if isinstance(test, ast.Constant) and isinstance(test.value, bool):
+        return test.value
     return None
 
 
@@ -1046,6 +1113,12 @@ def _comp_registry(ctx):
             for e in pr.effects:
                 if e.get("obj") == "self.nsp" and e["kind"] in MUTATING_EFFECTS:
                     opened, closed = reg.setdefault(e["attr"], (set(), set()))
+                    if e.get("phase") == 1:
+                        # while the parts are rewritten: a registration counts as opening (a wrapper may
+                        # register after the first iterable); removals are judged on the timeline (parts-inside)
+                        if e["kind"] in ("append", "add", "update", "extend"):
+                            opened.add(e["kind"])
+                        continue
                     (opened if e.get("phase") == 0 else closed).add(e["kind"])
     if not n_paths:
         raise AnalysisError("C06-R9: no comprehension path of the expression rewriter could be analysed")
@@ -1108,6 +1181,39 @@ def rule_r9(ctx):
         )
     else:
         rr.ok("registry|outermost-iterable", sample={"rule": "C06-R9", "verdict": "targets are registered while the parts are rewritten, not in the constructor"})
+    # ... and ONLY the outermost iterable: every other part (the iterables of later clauses, the
+    # conditions, the element) is rewritten while the comprehension's targets are registered
+    rr.instances += 1
+    outside = None
+    for kind in SCOPE_KINDS[1:]:
+        for pr in all_expr_paths(ctx).get(kind, []):
+            if pr.outcome != "ok":
+                continue
+            ys = pr.extra.get("yields", [])
+            # timeline of the registry entry of this comprehension: +1 on register, -1 on removal
+            marks = []
+            for e in pr.effects:
+                if e.get("obj") == "self.nsp" and e.get("attr") in reg and "after_yields" in e and e.get("phase") in (0, 1):
+                    if e["kind"] in ("append", "add", "update", "extend"):
+                        marks.append((e["after_yields"], +1))
+                    elif e["kind"] in ("pop", "remove", "discard", "difference_update", "clear"):
+                        marks.append((e["after_yields"], -1))
+            for i, (yk, v, _t) in enumerate(ys):
+                level = sum(d for n, d in marks if n <= i)
+                if level <= 0 and marks:
+                    path = norm_path(v.short_path()) if hasattr(v, "short_path") else repr(v)
+                    first_iter = bool(re.search(r"generators\[0\]\.iter$", path))
+                    if not first_iter:
+                        outside = outside or (kind, path)
+    if outside:
+        kind, path = outside
+        rr.fail(
+            "C06-R9|PendingComp|part-outside-own-targets",
+            f"the comprehension wrapper rewrites {path} while its own targets are NOT registered: only the iterable of the FIRST clause is evaluated in the enclosing scope. In `[cell for row in rows for cell in row]` the `row` of the second clause is the first clause's target; rewritten without it, it becomes the function's captured `row` (`__ol_nonlocal_x['row']`, silently wrong values) or the class member (`KeyError`)",
+            what="registry|parts-inside",
+        )
+    else:
+        rr.ok("registry|parts-inside", sample={"rule": "C06-R9", "verdict": "no part other than the first iterable is rewritten outside the comprehension's targets"})
     attrs = [a for a, (o, c) in reg.items() if o]
     for ci in leaves:
         if ci is glob:
@@ -1348,6 +1454,7 @@ def rule_r11(ctx):
                         out.append(n)
         return out
 
+    skipped_names = set()
     for done, term in _stmt_paths(tr.orelse):
         pushes = stack_ops(done, "append")
         if term != "Continue" or pushes.get(ns_stack):
@@ -1357,6 +1464,7 @@ def rule_r11(ctx):
         names = [s_ for p in parts for s_ in name_test_strings(p)]
         if not names:
             continue
+        skipped_names |= set(names)
         rr.instances += 1
         weak = [n for n in names if n.isidentifier() and not keyword.iskeyword(n)]
         evidence = [s_ for p in parts for s_ in other_strings(p) if not s_.isidentifier()]
@@ -1408,6 +1516,20 @@ def rule_r11(ctx):
             )
         else:
             rr.ok(what, sample={"rule": "C06-R11", "skip": [ast.unparse(t)[:50] for t in tests], "names": sorted(set(names)), "extra evidence": sorted(set(evidence))})
+    # ... and EVERY scope that has no statement of its own must be passed over: the names CPython's
+    # symtable gives them (Python/symtable.c: lambda, listcomp, setcomp, dictcomp, genexpr).  A table of
+    # one of these kinds that is not recognised becomes a function namespace no statement ever claims.
+    rr.instances += 1
+    SCOPES_WITHOUT_STATEMENT = ("lambda", "listcomp", "setcomp", "dictcomp", "genexpr")
+    missing_sk = [n for n in SCOPES_WITHOUT_STATEMENT if n not in skipped_names]
+    if skipped_names and missing_sk:
+        rr.fail(
+            f"C06-R11|generate_nsp|scope-kind-not-skipped|{'+'.join(missing_sk)}",
+            f"{fi.where()}: the symbol tables named {missing_sk} are not among the names that are passed over ({sorted(skipped_names)}): such a table is treated as an ordinary function, its globals are not collected for the enclosing class body (a class attribute read inside the generator/comprehension is loaded from the class dict instead of the globals) and its names are resolved in a namespace no `def` belongs to",
+            where=fi.where(), what="skip|table-names",
+        )
+    else:
+        rr.ok("skip|table-names", sample={"rule": "C06-R11", "skipped": sorted(skipped_names)})
     # the statement side: a def/class statement picks, among the children of the current namespace,
     # the one built from ITS symbol table.  Names repeat (redefinitions, property setters, overloads,
     # conditional definitions); the line of the statement does not, so the match must test it.
